@@ -514,7 +514,8 @@ reg("C19", gen=lambda rng, n, tier: F.c19(rng, n, full=(tier == "thorough")) + F
 
 # ------------------------------------------------------------------ C16 / C17
 
-reg("C16", gen=lambda rng, n, tier: (lambda cs: cs + F.with_default_bounds(rng, cs))(F.regex_lattice(rng) + F.regex(rng, (3 * n) // 4) + F.regex_random(rng, n // 4)), budget=(12000, 80000), absolute=True,
+reg("C16", gen=lambda rng, n, tier: (lambda cs: cs + F.with_default_bounds(rng, cs))(F.regex_lattice(rng) + F.regex(rng, (3 * n) // 4) + F.regex_random(rng, n // 4)) + F.c16_literal_pairs(rng, n // 4), budget=(12000, 80000), absolute=True,
+    oracle=lambda cases, impl, ctx: oracle_same("literal", "regex", "-e X does not behave like -d X for a regex X without metacharacters")(cases, impl, ctx),
     compare=lambda c: True,
     rule="-e with regexes of the modelled family (single char, class, alternations of different lengths, '+' runs, "
          "groups, multi-byte literals) x bounds x {-g, -t l|r|b, -p -r R, -r R with $-sequences, -s, -m, -j, --json, "
